@@ -1,13 +1,24 @@
 (* C18 — dotted-path access agrees with key-by-key navigation; importing at a path changes
-   exactly the addressed value. Model: JL.model.Row (get_value_at_path, import_at_path,
-   find_values_at_path), proofs: JL.proofs.RowPaths. [navigate keys c]: the reference walk — at
+   exactly the addressed value; FindValuesAtPath is the fuel-free reference search. Model:
+   JL.model.Row (get_value_at_path, import_at_path, find_values_at_path), proofs:
+   JL.proofs.RowPaths, JL.proofs.RowFind. [navigate keys c]: the reference walk — at
    each segment look the key up in the row the current value gives access to (a row used as
    a value, as rows built through the API hold them, or a value holding a row, as the JSON
-   reader builds them); anything else, or a missing key, is absence. *)
+   reader builds them); anything else, or a missing key, is absence.
+   [find_ref keys r] (RowFind.v): the reference for FindValuesAtPath, by structural recursion on
+   the segments only, no fuel: missing key -> None; last segment -> Some [value]; the value is a
+   row or holds a row -> search the rest in it; the value holds an array -> Some of the
+   concatenation, in element order, of [elem_ref]: what is found in each element that is a row
+   having the rest of the path (other elements contribute nothing); anything else -> None.
+   The fuelled model spends one unit per segment, so [length keys] units (at least 1) suffice:
+   [C18_find] / [C18_find_fuel_exact]; [Fuel] is unreachable ([C18_find_no_fuel]); below an array
+   the result is in document order ([C18_find_document_order], [C18_find_order_app]); on a path
+   that crosses no array FindValuesAtPath is GetValueAtPath ([C18_find_no_array],
+   [C18_find_of_get], [C18_find_navigate]). *)
 From Coq Require Import ZArith List Bool.
 From JL.std Require Import GoBase GoVal.
 From JL.model Require Import Row RowRun.
-From JL.proofs Require Import RowProofs RowPaths.
+From JL.proofs Require Import RowProofs RowPaths RowFind.
 Import ListNotations.
 Open Scope Z_scope.
 
@@ -53,13 +64,106 @@ Theorem C18_import_missing : forall (O : oracles) n p v r,
 Proof. exact import_at_path_missing. Qed.
 Print Assumptions C18_import_missing.
 
-(* FindValuesAtPath: stated and tied by the correspondence check and the document-order oracle of
-   the harness; the theorem below is the PARTIAL part proved: on a path that crosses no array it
-   is GetValueAtPath. Full statement (document order across arrays of objects): see DESIGN.md. *)
-Theorem C18_find_partial : forall n k r,
+(* ---------- FindValuesAtPath ---------- *)
+(* with more fuel than segments the fuelled model of FindValuesAtPath IS the reference search *)
+Theorem C18_find : forall n keys r,
+  (n > length keys)%nat -> find_values_at_keys n keys r = Ok (find_ref keys r).
+Proof. exact find_values_at_keys_ref_gt. Qed.
+Print Assumptions C18_find.
+
+(* the exact bound: one unit of fuel per segment (also when descending into the elements of an
+   array), and at least one unit *)
+Theorem C18_find_fuel_exact : forall keys n r,
+  (1 <= n)%nat -> (length keys <= n)%nat -> find_values_at_keys n keys r = Ok (find_ref keys r).
+Proof. exact find_values_at_keys_ref. Qed.
+Print Assumptions C18_find_fuel_exact.
+
+(* the out-of-fuel outcome (and any panic or error) is unreachable *)
+Theorem C18_find_no_fuel : forall n keys r,
+  (n > length keys)%nat ->
+  find_values_at_keys n keys r <> Fuel /\ find_values_at_keys n keys r <> Panic
+  /\ forall e, find_values_at_keys n keys r <> Err e.
+Proof. exact find_values_no_fuel. Qed.
+Print Assumptions C18_find_no_fuel.
+
+(* on the path text: FindValuesAtPath(join "." keys) *)
+Theorem C18_find_path : forall n keys r,
+  keys <> [] -> Forall no_dot keys -> (n > length keys)%nat ->
+  find_values_at_path n (join_dot keys) r = Ok (find_ref keys r).
+Proof. exact find_values_at_joined_path. Qed.
+Print Assumptions C18_find_path.
+
+(* document order: below an array the result is found, and is the concatenation over the
+   elements, in element order, of what each contributes: the values found in it when it is a
+   row having the rest of the path, nothing when it is not a row or lacks the path *)
+Theorem C18_find_document_order : forall k rest r elems f t,
+  rest <> [] -> get_value k r = Some (CVal (RArr elems) f t) ->
+  find_ref (k :: rest) r = Some (concat (map (elem_ref (find_ref rest)) elems))
+  /\ (forall er, elem_ref (find_ref rest) (RV (CRow er)) = match find_ref rest er with Some vs => vs | None => [] end)
+  /\ (forall e, (forall er, e <> RV (CRow er)) -> elem_ref (find_ref rest) e = []).
+Proof.
+  intros k rest r elems f t Hne Hg. split; [eapply find_ref_array; eassumption|].
+  split; [intros er; apply elem_ref_row | intros e He; now apply elem_ref_not_row].
+Qed.
+Print Assumptions C18_find_document_order.
+
+(* ... hence the values of earlier elements come before those of later ones *)
+Theorem C18_find_order_app : forall k rest r a b f t ra rb fa ta fb tb,
+  rest <> [] ->
+  get_value k r = Some (CVal (RArr (a ++ b)) f t) ->
+  get_value k ra = Some (CVal (RArr a) fa ta) ->
+  get_value k rb = Some (CVal (RArr b) fb tb) ->
+  exists va vb, find_ref (k :: rest) ra = Some va /\ find_ref (k :: rest) rb = Some vb
+                /\ find_ref (k :: rest) r = Some (va ++ vb).
+Proof. exact find_ref_array_app. Qed.
+Print Assumptions C18_find_order_app.
+
+(* a path that crosses no array ([crosses_no_array]: no value met before the last segment is a
+   []interface{}): FindValuesAtPath is GetValueAtPath, found or not *)
+Theorem C18_find_no_array : forall keys r,
+  keys <> [] -> crosses_no_array keys r ->
+  find_ref keys r = match get_value_at_keys keys r with Some c => Some [c] | None => None end.
+Proof. exact find_ref_no_array. Qed.
+Print Assumptions C18_find_no_array.
+
+(* whatever GetValueAtPath finds (it never crosses an array), FindValuesAtPath finds alone *)
+Theorem C18_find_of_get : forall keys r c,
+  keys <> [] -> get_value_at_keys keys r = Some c -> find_ref keys r = Some [c].
+Proof. exact find_ref_of_get. Qed.
+Print Assumptions C18_find_of_get.
+
+(* through C18_get_agrees: FindValuesAtPath against key-by-key navigation *)
+Theorem C18_find_navigate : forall (n : nat) keys r,
+  keys <> [] -> Forall no_dot keys -> (n > length keys)%nat -> crosses_no_array keys r ->
+  find_values_at_path n (join_dot keys) r =
+  Ok (match navigate keys (CRow r) with Some c => Some [c] | None => None end).
+Proof. exact find_no_array_navigate. Qed.
+Print Assumptions C18_find_navigate.
+
+(* the one-segment case (the former C18_find_partial) *)
+Theorem C18_find_one : forall n k r,
   (n > 0)%nat -> find_values_at_keys n [k] r = Ok (match get_value k r with Some c => Some [c] | None => None end).
 Proof. intros n k r H. destruct n; [inversion H | reflexivity]. Qed.
-Print Assumptions C18_find_partial.
+Print Assumptions C18_find_one.
+
+(* a.b over {"a":[{"b":1}, 7, {"c":0}, {"b":2}]}: the rows having b contribute, in order; the
+   scalar and the row lacking b contribute nothing; a.b.x below the scalars finds the array but
+   nothing in it; fuel 2 = number of segments is enough, fuel 1 is not *)
+Example C18_find_example :
+  let v i := CVal (RS (VInt KInt i)) FAuto VNil in
+  let e1 := RV (CRow (MkRow [([98], v 1%Z)] [[98]])) in
+  let e2 := RS (VInt KInt 7) in
+  let e3 := RV (CRow (MkRow [([99], v 0%Z)] [[99]])) in
+  let e4 := RV (CRow (MkRow [([98], v 2%Z)] [[98]])) in
+  let r := MkRow [([97], CVal (RArr [e1; e2; e3; e4]) FAuto VNil)] [[97]] in
+  find_ref [[97]; [98]] r = Some [v 1%Z; v 2%Z]
+  /\ find_values_at_path 2 [97; 46; 98] r = Ok (Some [v 1%Z; v 2%Z])
+  /\ find_values_at_path 1 [97; 46; 98] r = Fuel
+  /\ find_ref [[97]; [98]; [120]] r = Some []
+  /\ find_ref [[97]] r = Some [CVal (RArr [e1; e2; e3; e4]) FAuto VNil]
+  /\ find_ref [[122]; [98]] r = None
+  /\ ~ crosses_no_array [[97]; [98]] r.
+Proof. repeat split. intros H. exact H. Qed.
 
 Example C18_example :
   let inner := MkRow [([98], CVal (RS (VInt KInt 1)) FAuto VNil)] [[98]] in
